@@ -43,7 +43,10 @@ META = dict(
               "order-event handler / trading-signal source, strategy handlers with 0..2 suspension points (no-look-"
               "ahead clause) and with none (determinism clause, compared against max_concurrent = 50 on the same "
               "path: 2-safety by self-composition); fixed cross-pair order script (market, limit, stop orders, a cancel, "
-              "a follow-up order from an order event, an order from a trading signal)",
+              "a follow-up order from an order event, an order from a trading signal); handlers that query the exchange "
+              "first with funds for one order; two order events of one instant on a source subscribed before the "
+              "bars, their handler competing with the bar handler for funds; repeated runs that differ in the uuid4 "
+              "stream (competing orders with a symbolic traversal counter; two equal loans and an auto-repay order)",
         thorough="adds 2 pairs x 3 bars, 3 pairs x 2 bars with max_concurrent 1..6, the tight-funds job with 3 pairs, "
                  "repeated runs with 4 competing orders"),
     stubs=["logging disabled", "uuid.uuid4 deterministic", "concrete OHLCV (scheduling is the subject)"],
@@ -52,7 +55,8 @@ META = dict(
              "workers run with PYTHONHASHSEED=VERIF_SEED so that successive runs sample it, no verdict is claimed",
              "more pairs / bars than stated"],
     required_covers=["an order was filled", "run completed", "the handler pool was saturated",
-                     "an auto-repay order repaid one of two equal loans"],
+                     "an auto-repay order repaid one of two equal loans",
+                     "two order events of one instant were handled"],
 )
 
 
@@ -264,6 +268,63 @@ def _id_stream(ctx, stream):
     ctx.patch(uuid, "uuid4", uuid4, both_modes=True)
 
 
+def order_events_first(ctx, max_mc=4):
+    """Determinism when one source delivers several events for one instant: two market sells are filled by the same bar
+    (two order events of that instant, on a source subscribed BEFORE the bar events); the order-event handler and the
+    bar handler then compete for funds that cover only two of their three buys.  Compared across max_concurrent."""
+    mc = ctx.int("max_concurrent", 1, max_mc)
+    t1 = ctx.dt("t_bar1", T0 + datetime.timedelta(days=1), T_HI)
+    t2 = ctx.dt("t_bar2", T0 + datetime.timedelta(days=1), T_HI)
+    ctx.assume(t2 > t1)
+    pair = PAIRS[0]
+
+    def one_run(mcv):
+        d = bs.backtesting_dispatcher(max_concurrent=mcv)
+        e = bex.Exchange(d, {"USD": Decimal(20), "AAA": Decimal(100)},
+                         liquidity_strategy_factory=liquidity.InfiniteLiquidity, default_pair_info=PairInfo(0, 2))
+        evs = []
+        for k, t in enumerate((t1, t2)):
+            o = Decimal(10 + k)
+            evs.append(bar.BarEvent(t, bar.Bar(t - datetime.timedelta(days=1), pair, o, o + 3, o - 2, o + 1,
+                                               Decimal(1000))))
+        src = event.FifoQueueEventSource(events=evs)
+        log = []
+        nbars = [0]
+
+        async def buy(name, price):
+            try:
+                await e.create_limit_order(BUY, pair, Decimal(1), Decimal(price))
+                log.append((name, "accepted"))
+            except errors.Error:
+                log.append((name, "rejected"))
+
+        async def on_order_event(oev):
+            if oev.order.operation == SELL and not oev.order.is_open and oev.order.amount_filled > 0:
+                await buy("from_fill", "16.00")
+
+        async def on_bar(ev):
+            nbars[0] += 1
+            if nbars[0] == 1:
+                for _ in range(2):
+                    await e.create_market_order(SELL, pair, Decimal(1))
+            else:
+                await buy("from_bar", "15.00")
+        e.subscribe_to_order_events(on_order_event)        # before the bar events (as samples/backtest_pairs_trading.py)
+        e.add_bar_source(src)
+        e.subscribe_to_bar_events(pair, on_bar)
+        run_dispatcher(d)
+        bal = {s_: (v.available, v.hold, v.borrowed) for s_, v in xrun(e.get_balances()).items()}
+        return log, bal
+    a = one_run(mc)
+    b = one_run(50)
+    if sum(1 for x in a[0] if x[0] == "from_fill") == 2:
+        ctx.cover("two order events of one instant were handled")
+    ctx.prove(sorted(a[0]) == sorted(b[0]), "C03 the accepted / rejected requests do not depend on max_concurrent",
+              info=(a[0], b[0]))
+    ctx.prove(a[1] == b[1], "C03 final balances do not depend on max_concurrent", info=(a[1], b[1]))
+    ctx.cover("run completed")
+
+
 def repeated_runs_loans(ctx):
     """Determinism across repeated runs where the random ids are LOAN ids: two equally sized loans taken at different
     times (so their interest differs), the borrowed coins sold, one coin bought back by an auto-repay order: which loan
@@ -383,6 +444,8 @@ def jobs(tier):
         js.append(Job("determinism %d pairs x 2 bars, handlers query the exchange first, tight funds" % npairs,
                       "scenario", dict(npairs=npairs, nbars=2, max_mc=4, clause="determinism", query=True, usd=20),
                       **big))
+    js.append(Job("determinism, two order events of one instant on a source subscribed before the bars",
+                  "order_events_first", dict(max_mc=4), validate_every=5, sample_every=10))
     js.append(Job("repeated runs, 3 competing orders, any traversal count", "repeated_runs", dict(norders=3),
                   validate_every=5, sample_every=10))
     js.append(Job("repeated runs, two equal loans and one auto-repay order", "repeated_runs_loans", validate_every=1,
